@@ -516,8 +516,16 @@ impl Clone for %s {
             self.rules.hit('verify-as-clone')
         segs = self.splice_fn(rel, addr, head_and_body, it, c, status, line_of(it.head_start),
                               canary_mode=('start' if (canary_on and in_trait_impl) else None))
+        fn_tags = list(c.tags if c else [])
+        # C10 by default: a failing body obligation (overflow, index, unwrap, assert!, decreases) of a verified function is a possible panic or
+        # hang, and every function of the crate except the five API mutators (and persist_on_policy, which only they call) is reachable from
+        # `open` (replay, hand-over to the writer, the GC pass that open runs) or from a read accessor.  Found by seed C10_h: position_to_idx
+        # carried C05 only, so its overflow was reported for C05 and not for C10.
+        if status == 'verify' and 'C10' not in fn_tags and not re.search(
+                r'MultiRecordLog::(create_queue|delete_queue|append_record|append_records|truncate|persist_on_policy)$', addr):
+            fn_tags.append('C10')
         info = FnInfo(addr=addr, status=status, src_file=rel, src_line=line_of(it.head_start),
-                      tags=(c.tags if c else []), bounded=(c.bounded if c else None), has_contract=bool(c))
+                      tags=fn_tags, bounded=(c.bounded if c else None), has_contract=bool(c))
         info.bodytags = dict(c.bodytags) if c else {}
         info.canary = (addr in self.canary_fns)
         info.src_sha = hashlib.sha256(re.sub(r'\s+', ' ', txt).encode()).hexdigest()[:16]
